@@ -916,7 +916,10 @@ def run_case(case, root):
                         V['linked'].add(dst)
                         V['created'].add(dst)
                         V['root'] = True
-                        emit('obj.load %s %s' % (dst[1], hexs(V['bytes'][dst])), 'ok')
+                        # the import stored the copy in the savepoint storage
+                        emit('obj.new %s' % dst[1], 'ok')
+                        emit('obj.write %s w %s' % (dst[1], hexs(V['bytes'][dst])), hexs(read_blob(nb)))
+                        emit('sp.store %s 1' % dst[1], 'ok')
                         nb = None
                     elif kind == 'relink':
                         slot = op[1]
